@@ -586,8 +586,22 @@ def moved_bond_sessions(rng, tier, n=15):
     """a canonical graph is edited in place so that its labels and its number of bonds stay what they were (one bond moved): the
     pipeline must treat it as the molecule it now is"""
     ss = []
+    fam = [g for name, g in gen.symmetric_families(rng) if "H" in name and g.number_of_nodes() <= 24]
     for i in range(n if tier == "quick" else n * 8):
-        g = gen.random_molecule(rng, 7, density=0.4)
+        kind = i % 3
+        if kind == 0:
+            g = gen.random_molecule(rng, 7, density=0.4)
+        elif kind == 1:
+            # a saturated chain with a substituent (moving the bond to the substituent makes a constitutional isomer)
+            k = rng.randint(4, 7)
+            atoms = [("C", 0, 0, 0)] * k + [(rng.choice(["Cl", "O", "N"]), 0, 0, 0)]
+            bonds = [(a, a + 1, 1) for a in range(k - 1)] + [(rng.randrange(k), k, 1)]
+            for a in range(k):
+                for _ in range(2):
+                    atoms.append(("H", 0, 0, 0)); bonds.append((a, len(atoms) - 1, 1))
+            g = gen.mol(atoms, bonds)
+        else:
+            g = copy.deepcopy(rng.choice(fam))
         if g.number_of_edges() < 1 or g.number_of_nodes() < 3:
             continue
         S = Session(f"moved{i}")
